@@ -18,6 +18,7 @@ pub fn opts() -> GenOpts {
     let mut o = GenOpts::general();
     o.cmd_depth = 2;
     o.adjacent_cmds = true;
+    o.cmd_or_words = true;
     o
 }
 
